@@ -45,8 +45,10 @@ func SiteAt(trace []Rd, off int) string {
 }
 
 // The boundary alphabet of the design: {0,1,2,0xfc,0xfd,0xfe,0xff,2^16−1,2^16,2^20,2^31−1,2^32−1,
-// 2^32,2^63−1,2^63,2^64−1}, restricted to what fits the width (plus 2^31 for 4 and 8 bytes).
-var boundary = []uint64{0, 1, 2, 0xfc, 0xfd, 0xfe, 0xff, 1<<16 - 1, 1 << 16, 1 << 20, 1<<31 - 1, 1 << 31, 1<<32 - 1, 1 << 32, 1<<63 - 1, 1 << 63, 1<<64 - 1}
+// 2^32,2^63−1,2^63,2^64−1}, restricted to what fits the width, plus 2^24 and 2^31 for 4 and 8 bytes
+// (2^24 elements of a 24-byte type is the smallest menu value that exceeds the allocation bound
+// without exceeding the worker's address-space limit).
+var boundary = []uint64{0, 1, 2, 0xfc, 0xfd, 0xfe, 0xff, 1<<16 - 1, 1 << 16, 1 << 20, 1 << 24, 1<<31 - 1, 1 << 31, 1<<32 - 1, 1 << 32, 1<<63 - 1, 1 << 63, 1<<64 - 1}
 
 // Subst is one replacement of the bytes [Off, Off+Del) by Ins.
 type Subst struct {
@@ -90,7 +92,7 @@ var varintMenu = []struct {
 	v    uint64
 }{
 	{0xfd, 2, 0}, {0xfd, 2, 0xfc}, {0xfd, 2, 0xfd}, {0xfd, 2, 0xffff},
-	{0xfe, 4, 0}, {0xfe, 4, 0xffff}, {0xfe, 4, 1 << 16}, {0xfe, 4, 1 << 20}, {0xfe, 4, 1<<31 - 1}, {0xfe, 4, 1<<32 - 1},
+	{0xfe, 4, 0}, {0xfe, 4, 0xffff}, {0xfe, 4, 1 << 16}, {0xfe, 4, 1 << 20}, {0xfe, 4, 1 << 24}, {0xfe, 4, 1<<31 - 1}, {0xfe, 4, 1<<32 - 1},
 	{0xff, 8, 0}, {0xff, 8, 1<<32 - 1}, {0xff, 8, 1 << 32}, {0xff, 8, 1<<63 - 1}, {0xff, 8, 1 << 63}, {0xff, 8, 1<<64 - 1},
 }
 
